@@ -62,6 +62,11 @@ def gen_case(rnd, tier):
     else:
         c["args"] = rbox(rnd, d, rnd.choice(["lower", "upper"]))
     c["as_list"] = rnd.random() < 0.3
+    lo_, hi_ = c["args"]
+    if x < 0.45 and rnd.random() < 0.35 and all(v is None or all(math.isfinite(t) for t in v) for v in (lo_, hi_)):
+        # whole-number bounds handed over with an integer dtype (int64 array, or a list of Python ints)
+        c["args"] = (None if lo_ is None else [float(math.floor(t)) for t in lo_], None if hi_ is None else [float(math.ceil(t)) for t in hi_])
+        c["int_box"] = True
     c["points"] = [([rnd.randint(-40, 40) / 8.0 for _ in range(d)], [rnd.randint(-16, 16) / 8.0 for _ in range(d)]) for _ in range(6)]
     if c["mode"] == "additive":
         c["parts"] = [rbox(rnd, d) for _ in range(rnd.randint(2, 3))]
@@ -91,6 +96,9 @@ def run_impl(c):
     lo, hi = c["args"]
     a_lo = (list(lo) if (c["as_list"] and lo is not None) else arr(lo))
     a_hi = (list(hi) if (c["as_list"] and hi is not None) else arr(hi))
+    if c.get("int_box"):
+        a_lo = None if lo is None else ([int(t) for t in lo] if c["as_list"] else numpy.array(lo).astype(int).reshape(-1, 1))
+        a_hi = None if hi is None else ([int(t) for t in hi] if c["as_list"] else numpy.array(hi).astype(int).reshape(-1, 1))
     ok = True
     try:
         dist.update_bounds(a_lo, a_hi)
@@ -159,7 +167,11 @@ def run_impl(c):
             tmis = twin.misfit(qa.copy())
         outside = math.isinf(mis) and mis > 0
         q2, p2 = qa.copy(), pa.copy()
-        active.corrector(q2, p2)
+        try:
+            active.corrector(q2, p2)
+        except Exception as e:  # noqa
+            out["problems"].append(("corrector-raised", f"{c['mode']}: corrector at {q} with bounds {out['collapsed'] if c['mode'] != 'plain' else out['after']}"
+                                    f"{' (integer dtype)' if c.get('int_box') else ''} raised {type(e).__name__}: {str(e)[:120]}"))
         pts.append((q, p, outside, col(q2), col(p2)))
         # statement: +inf outside, unbounded misfit inside
         box_lo, box_hi = out["collapsed"] if c["mode"] != "plain" else out["after"]
